@@ -186,6 +186,12 @@ class VecEval:
                      "atan2": sp.atan2, "atan": sp.atan, "exp": sp.exp}
             if base in table and all(not isinstance(a, tuple) for a in args):
                 return table[base](*args)
+            if base == "copysign" and len(args) == 2 and not any(isinstance(a, tuple) for a in args):
+                return sp.Abs(args[0]) * sp.sign(args[1])
+            if base == "hypot" and len(args) == 2 and not any(isinstance(a, tuple) for a in args):
+                return sp.sqrt(args[0] ** 2 + args[1] ** 2)
+            if base in ("floor", "ceil") and len(args) == 1 and not isinstance(args[0], tuple):
+                return (sp.floor if base == "floor" else sp.ceiling)(args[0])
             if "numeric_limits" in qn:
                 if nm == "infinity":
                     return sp.oo
